@@ -13,6 +13,23 @@
 //! fetch_balances, account_snapshot} x {next op immediately / after the latency}; counts oneshot
 //! responses and broadcast notifications and checks the queries.
 //!
+//! Layer 2b: one LONG scripted run through the same path (150 / 600 accepted orders, the whole trade history
+//! queried after every 16th order and at the end) - the history-length dimension (ids, trade history).
+//!
+//! Layer 3 (E-ENV, builder path): `ExecutionBuilder::new(&IndexedInstruments).add_mock(config, clock).build().init()`
+//! on a paused runtime - the MockExchange's instruments are derived from the `IndexedInstruments` by the
+//! builder, orders are sent the way the engine sends them (MultiExchangeTxMap -> ExecutionManager ->
+//! MockExecution -> MockExchange::run) and answers / announcements come back INDEXED on the merged account
+//! channel. A second exchange (tracked, without execution link, naming the same assets) comes first, so no
+//! index of the simulated exchange is 0. Every order sequence <= d x pacing; the events are translated back to
+//! names with the tables of `IndexedInstruments` and judged by the same ledger oracle; the initial account
+//! snapshot must equal the configured balances.
+//!
+//! Layer 1b: the same E-SEQ model over prices, quantities and a fee with many decimals (amounts down to 1e-14),
+//! balances including the exactly-enough value: "exactly that amount" to the last digit.
+//!
+//! Also in the alphabet: market orders with every time in force (the statement speaks of all market orders).
+//!
 //! Oracle (statement):
 //!   R-accept   a market order on a configured instrument is accepted iff balance(spent) >= required, with
 //!              spent = quote, required = p*q*(1+fee) for a buy; spent = BASE, required = q*(1+fee) for a sell.
@@ -25,6 +42,8 @@
 //!   R-notify   one balance notification (the debited asset with its new balance) and one trade
 //!              notification per accepted order, none for a rejected one (layer 2: on the broadcast stream;
 //!              their relative order is not prescribed).
+//!   R-echo     the answer to an order names that order (exchange, instrument, strategy, client order id) and
+//!              repeats its terms; announcements carry the simulated exchange's id.
 //!   R-queries  balances / snapshot equal the ledger; trade queries list exactly the accepted orders'
 //!              trades (with time >= since; a trade exactly at `since` may be listed or not).
 //! After each step the reference ledger is re-synchronised with the implementation so that one defect is
@@ -40,30 +59,38 @@ use crate::explore::{
     env::paused_rt,
     seq::{self, SeqModel, Viol},
 };
+use barter::{
+    engine::{clock::EngineClock, execution_tx::ExecutionTxMap},
+    execution::{AccountStreamEvent, builder::ExecutionBuilder, request::ExecutionRequest},
+};
 use barter_execution::{
-    AccountEventKind, UnindexedAccountEvent, UnindexedAccountSnapshot,
+    AccountEvent, AccountEventKind, UnindexedAccountEvent, UnindexedAccountSnapshot,
     balance::{AssetBalance, Balance},
     client::{
         ExecutionClient,
         mock::{MockExecution, MockExecutionClientConfig, MockExecutionConfig},
     },
-    error::UnindexedOrderError,
+    error::{ApiError, OrderError, UnindexedOrderError},
     exchange::mock::{MockExchange, OpenOrderNotifications, account::AccountState},
     order::{
         Order, OrderEvent, OrderKey, OrderKind, TimeInForce,
-        id::{ClientOrderId, StrategyId},
+        id::{ClientOrderId, OrderId, StrategyId},
         request::{OrderRequestOpen, RequestOpen},
-        state::Open,
+        state::{ActiveOrderState, InactiveOrderState, Open, OrderState},
     },
     trade::{AssetFees, Trade},
 };
 use barter_instrument::{
     Side, Underlying,
-    asset::{QuoteAsset, name::AssetNameExchange},
-    exchange::ExchangeId,
-    instrument::{Instrument, name::InstrumentNameExchange},
+    asset::{AssetIndex, QuoteAsset, name::AssetNameExchange},
+    exchange::{ExchangeId, ExchangeIndex},
+    index::IndexedInstruments,
+    instrument::{
+        Instrument, InstrumentIndex,
+        name::{InstrumentNameExchange, InstrumentNameInternal},
+    },
 };
-use barter_integration::snapshot::Snapshot;
+use barter_integration::{channel::Tx, snapshot::Snapshot};
 use chrono::{DateTime, TimeDelta, Utc};
 use fnv::FnvHashMap;
 use futures::StreamExt;
@@ -105,6 +132,34 @@ pub struct Sym {
     pub qty: u32,
     pub inst: u8,
     pub limit: bool,
+    /// time in force: 0 = ImmediateOrCancel, 1 = GoodUntilCancelled (not post-only), 2 = FillOrKill, 3 = GoodUntilEndOfDay
+    #[serde(default)]
+    pub tif: u8,
+    /// many-decimal values: the price is `price` x 0.00001234 and the quantity `qty` x 0.333
+    #[serde(default)]
+    pub fine: bool,
+}
+
+fn price_of(s: &Sym) -> Decimal {
+    if s.fine { Decimal::from(s.price) * dec!(0.00001234) } else { Decimal::from(s.price) }
+}
+fn qty_of(s: &Sym) -> Decimal {
+    if s.fine { Decimal::from(s.qty) * dec!(0.333) } else { Decimal::from(s.qty) }
+}
+
+/// the alphabet of the many-decimals sweep: market orders on all instruments, both sides
+fn fine_alphabet() -> Vec<Sym> {
+    let mut v = Vec::new();
+    for sell in [false, true] {
+        for inst in 0..3u8 {
+            for price in [1u32, 10] {
+                for qty in [1u32, 3] {
+                    v.push(Sym { sell, price, qty, inst, limit: false, tif: 0, fine: true });
+                }
+            }
+        }
+    }
+    v
 }
 
 /// initial balances (btc, eth, usdt) and fee, as decimal strings (the config travels in the case label)
@@ -153,21 +208,28 @@ fn instruments() -> FnvHashMap<InstrumentNameExchange, Instrument<ExchangeId, As
         .collect()
 }
 
-fn alphabet(qtys: &[u32]) -> Vec<Sym> {
+fn alphabet(qtys: &[u32], with_tif: bool) -> Vec<Sym> {
     let mut v = Vec::new();
     for sell in [false, true] {
         for inst in 0..3u8 {
             for price in [1u32, 10] {
                 for &qty in qtys {
-                    v.push(Sym { sell, price, qty, inst, limit: false });
+                    v.push(Sym { sell, price, qty, inst, limit: false, tif: 0, fine: false });
                 }
             }
         }
     }
     for sell in [false, true] {
-        v.push(Sym { sell, price: 1, qty: 1, inst: 2, limit: true });
-        v.push(Sym { sell, price: 1, qty: 1, inst: 3, limit: false });
+        v.push(Sym { sell, price: 1, qty: 1, inst: 2, limit: true, tif: 0, fine: false });
+        v.push(Sym { sell, price: 1, qty: 1, inst: 3, limit: false, tif: 0, fine: false });
     }
+    if !with_tif {
+        return v;
+    }
+    // market orders with another time in force (the statement quantifies over ALL market orders)
+    v.push(Sym { sell: false, price: 1, qty: 3, inst: 0, limit: false, tif: 1, fine: false });
+    v.push(Sym { sell: true, price: 10, qty: 1, inst: 1, limit: false, tif: 2, fine: false });
+    v.push(Sym { sell: true, price: 1, qty: 2, inst: 2, limit: false, tif: 3, fine: false });
     v
 }
 
@@ -176,19 +238,30 @@ fn inst_name(s: &Sym) -> &'static str {
 }
 
 fn request(s: &Sym, n: usize) -> OrderRequestOpen<ExchangeId, InstrumentNameExchange> {
+    request_u(s, n, false)
+}
+
+/// `unique_strategy`: every request of a sequence has its own strategy id (used where a fill can only be
+/// traced back to its order through the strategy it echoes), else two strategies alternate.
+fn request_u(s: &Sym, n: usize, unique_strategy: bool) -> OrderRequestOpen<ExchangeId, InstrumentNameExchange> {
     OrderEvent {
         key: OrderKey {
             exchange: EXCHANGE,
             instrument: InstrumentNameExchange::new(inst_name(s)),
-            strategy: StrategyId::new(format!("strat-{}", n % 2)),
+            strategy: StrategyId::new(format!("strat-{}", if unique_strategy { n } else { n % 2 })),
             cid: ClientOrderId::new(format!("cid-{n}")),
         },
         state: RequestOpen {
             side: if s.sell { Side::Sell } else { Side::Buy },
-            price: Decimal::from(s.price),
-            quantity: Decimal::from(s.qty),
+            price: price_of(s),
+            quantity: qty_of(s),
             kind: if s.limit { OrderKind::Limit } else { OrderKind::Market },
-            time_in_force: TimeInForce::ImmediateOrCancel,
+            time_in_force: match s.tif {
+                0 => TimeInForce::ImmediateOrCancel,
+                1 => TimeInForce::GoodUntilCancelled { post_only: false },
+                2 => TimeInForce::FillOrKill,
+                _ => TimeInForce::GoodUntilEndOfDay,
+            },
         },
     }
 }
@@ -228,7 +301,7 @@ fn spend(s: &Sym, fee: Decimal, use_quote_for_sell: bool) -> Option<(&'static st
         return None;
     }
     let (_, base, quote) = INSTRUMENTS[s.inst as usize];
-    let (p, q) = (Decimal::from(s.price), Decimal::from(s.qty));
+    let (p, q) = (price_of(s), qty_of(s));
     Some(if s.sell {
         (if use_quote_for_sell { quote } else { base }, q + q * fee)
     } else {
@@ -258,7 +331,7 @@ impl<F: Fn() -> String> std::fmt::Display for LazyTxt<F> {
 }
 
 /// Judge one step. Returns the violations and the ledger to continue from (None = unknown, layer 2 only).
-fn judge_open(s: &Sym, n: usize, fee: Decimal, before: &Ledger, o: &Observed, issued: &mut Issued, render: bool) -> (Vec<Viol>, Option<Ledger>) {
+fn judge_open(s: &Sym, n: usize, req: &OrderRequestOpen<ExchangeId, InstrumentNameExchange>, fee: Decimal, before: &Ledger, o: &Observed, issued: &mut Issued, render: bool) -> (Vec<Viol>, Option<Ledger>) {
     // details are rendered only on request (`render`): the explorer first asks for the signatures only
     macro_rules! det {
         ($($t:tt)*) => { if render { format!($($t)*) } else { String::new() } };
@@ -271,7 +344,6 @@ fn judge_open(s: &Sym, n: usize, fee: Decimal, before: &Ledger, o: &Observed, is
     } else {
         "market"
     };
-    let req = request(s, n);
     let accepted = o.resp.state.is_ok();
     let sp = spend(s, fee, false);
     let (want_accept, want_after) = predict(before, sp);
@@ -313,6 +385,12 @@ fn judge_open(s: &Sym, n: usize, fee: Decimal, before: &Ledger, o: &Observed, is
         } else if !changed.is_empty() {
             ledger_viols.push((format!("C08/reject-leaves-balances/{side}/{tag}"), det!("{ctx_txt}; changed on rejection: {changed:?}; after={after:?}")));
         }
+    }
+    // the answer is the answer to THIS order: it names the order's exchange, instrument, strategy and client order id
+    // and repeats its terms
+    let r = o.resp;
+    if r.key != req.key || r.side != req.state.side || r.price != req.state.price || r.quantity != req.state.quantity || r.kind != req.state.kind || r.time_in_force != req.state.time_in_force {
+        other.push((format!("C08/response/does-not-echo-order/{}", if accepted { "accepted" } else { "rejected" }), det!("{ctx_txt}; request={req:?}; response={r:?}")));
     }
     // R-notify (content of the balance announcement) + R-fill
     if accepted {
@@ -462,6 +540,7 @@ impl<'a> SeqModel for M<'a> {
         s.ex.0.time_exchange_latest = t;
         s.ex.0.account.update_time_exchange(t);
         let req = request(sym, n);
+        let req_echo = req.clone();
         let r = catch_unwind(AssertUnwindSafe(|| s.ex.0.open_order(req)));
         let (resp, notifications) = match r {
             Ok(x) => x,
@@ -482,7 +561,7 @@ impl<'a> SeqModel for M<'a> {
         // signatures first; a signature already reported by this model for a sequence that is not longer is
         // only counted (the collector keeps the shortest case anyway), everything else is rendered and reported
         let mut issued_probe = s.issued.clone();
-        let (sigs, _) = judge_open(sym, n, fee, &before, &obs, &mut issued_probe, false);
+        let (sigs, _) = judge_open(sym, n, &req_echo, fee, &before, &obs, &mut issued_probe, false);
         let mut need = sigs.is_empty();
         if !sigs.is_empty() {
             let mut seen = self.seen.lock().unwrap();
@@ -506,7 +585,7 @@ impl<'a> SeqModel for M<'a> {
                 let seen = self.seen.lock().unwrap();
                 sigs.iter().filter(|(g, _)| seen.get(g).map(|x| x.0 >= n).unwrap_or(true)).map(|(g, _)| g.clone()).collect()
             };
-            let (viols, _) = judge_open(sym, n, fee, &before, &obs, &mut s.issued, true);
+            let (viols, _) = judge_open(sym, n, &req_echo, fee, &before, &obs, &mut s.issued, true);
             out.extend(viols.into_iter().filter(|(g, _)| self.ctx.is_none() || fresh.contains(g)));
         } else {
             s.issued = issued_probe;
@@ -557,15 +636,15 @@ pub enum Op {
 }
 
 fn env_ops() -> Vec<Op> {
-    let m = |sell, price, qty, inst| Op::Open(Sym { sell, price, qty, inst, limit: false });
+    let m = |sell, price, qty, inst| Op::Open(Sym { sell, price, qty, inst, limit: false, tif: 0, fine: false });
     vec![
         m(false, 10, 1, 0), // buy BTCUSDT
         m(true, 10, 1, 0),  // sell BTCUSDT
         m(true, 1, 3, 2),   // sell ETHBTC (base eth, quote btc)
         m(false, 1, 2, 2),  // buy ETHBTC
         m(false, 10, 3, 1), // buy ETHUSDT, large
-        Op::Open(Sym { sell: false, price: 1, qty: 1, inst: 2, limit: true }),
-        Op::Open(Sym { sell: true, price: 1, qty: 1, inst: 3, limit: false }),
+        Op::Open(Sym { sell: false, price: 1, qty: 1, inst: 2, limit: true, tif: 0, fine: false }),
+        Op::Open(Sym { sell: true, price: 1, qty: 1, inst: 3, limit: false, tif: 0, fine: false }),
         Op::TradesAll,
         Op::TradesSinceNow,
         Op::Balances,
@@ -591,7 +670,6 @@ struct EnvExec {
 
 fn env_execute(cfg: &Config, max_ops: usize, ch: &mut Chooser) -> EnvExec {
     let menu = env_ops();
-    let fee = cfg.fee();
     let rt = paused_rt();
     let names: Vec<InstrumentNameExchange> =
         INSTRUMENTS.iter().map(|i| i.0).chain([UNKNOWN]).map(InstrumentNameExchange::new).collect();
@@ -708,9 +786,16 @@ fn env_execute(cfg: &Config, max_ops: usize, ch: &mut Chooser) -> EnvExec {
         drop(pending);
     });
 
-    // ---------------------------------------------------------------------------- oracle
-    let mut viols: Vec<Viol> = Vec::new();
-    let seq_txt = format!("config={} ops={ops:?}", cfg.label());
+    env_judge(cfg, "MockExecution -> MockExchange::run", false, ops, answers, events, task_died, Vec::new())
+}
+
+/// The oracle of the asynchronous layers: `ops[k]` was sent at virtual ms `ops[k].1`, `answers[k]` is its response
+/// (None = never answered), `events` are the announcements on the account stream. `unique_strategy`: how the
+/// requests were built (see `request_u`). `viols` = what the driver already found.
+#[allow(clippy::too_many_arguments)]
+fn env_judge(cfg: &Config, via: &str, unique_strategy: bool, ops: Vec<(Op, u64)>, answers: Vec<Option<Resp>>, events: Vec<UnindexedAccountEvent>, task_died: bool, mut viols: Vec<Viol>) -> EnvExec {
+    let fee = cfg.fee();
+    let seq_txt = if ops.len() <= 12 { format!("config={} ops={ops:?}", cfg.label()) } else { format!("config={} ops=[scripted run of {} ops, see the replay]", cfg.label(), ops.len()) };
     if task_died {
         viols.push(("C08/env/exchange-task-ended".into(), format!("MockExchange::run ended (panicked?) while its client was alive; {seq_txt}")));
     }
@@ -718,6 +803,9 @@ fn env_execute(cfg: &Config, max_ops: usize, ch: &mut Chooser) -> EnvExec {
     let mut ann_balances: Vec<&AssetBalance<AssetNameExchange>> = Vec::new();
     let mut ann_trades: Vec<&Trade<QuoteAsset, InstrumentNameExchange>> = Vec::new();
     for ev in &events {
+        if ev.exchange != EXCHANGE {
+            viols.push(("C08/env/notify/wrong-exchange".into(), format!("announcement carries exchange {:?}, the simulated exchange is {EXCHANGE:?}: {ev:?}; {seq_txt}", ev.exchange)));
+        }
         match &ev.kind {
             AccountEventKind::BalanceSnapshot(Snapshot(b)) => ann_balances.push(b),
             AccountEventKind::Trade(t) => ann_trades.push(t),
@@ -785,8 +873,8 @@ fn env_execute(cfg: &Config, max_ops: usize, ch: &mut Chooser) -> EnvExec {
                 match &ledger {
                     Some(before) => {
                         let obs = Observed { resp, balances, trades, after: None };
-                        let (v, next) = judge_open(s, k, fee, before, &obs, &mut issued, true);
-                        viols.extend(v.into_iter().map(|(sig, d)| (sig, format!("[via MockExecution -> MockExchange::run] {d}; {seq_txt}"))));
+                        let (v, next) = judge_open(s, k, &request_u(s, k, unique_strategy), fee, before, &obs, &mut issued, true);
+                        viols.extend(v.into_iter().map(|(sig, d)| (sig, format!("[via {via}] {d}; {seq_txt}"))));
                         ledger = next;
                     }
                     None => {}
@@ -866,6 +954,260 @@ fn op_tag(op: &Op) -> &'static str {
 }
 
 // ------------------------------------------------------------------------------------------------
+// layer 2b: one LONG scripted run through MockExecution -> MockExchange::run (history-length dimension)
+// ------------------------------------------------------------------------------------------------
+
+/// The choice sequence of a scripted run of `n_opens` accepted market orders (cycling through the five
+/// market symbols of `env_ops`, two of every three at the same instant as the previous one), a trade query for
+/// the whole history after every 16th order, and the three queries at the end.
+fn long_script(n_opens: usize) -> Vec<usize> {
+    const TRADES_ALL: usize = 7;
+    let mut choices = Vec::new();
+    for i in 0..n_opens {
+        choices.push(1 + i % 5); // menu index + 1 (0 = stop)
+        choices.push(usize::from(i % 3 == 0)); // pacing
+        if i % 16 == 15 {
+            choices.push(1 + TRADES_ALL);
+            choices.push(0);
+        }
+    }
+    for q in [TRADES_ALL, 9, 10] {
+        choices.push(1 + q);
+        choices.push(1);
+    }
+    choices
+}
+
+fn long_config() -> Config {
+    Config { balances: ["100000".into(), "100000".into(), "100000".into()], fee: "0.1".into() }
+}
+
+// ------------------------------------------------------------------------------------------------
+// layer 3: the builder path - ExecutionBuilder::add_mock -> build -> init: the MockExchange is configured
+// from the IndexedInstruments by the builder, orders travel engine link -> ExecutionManager -> MockExecution
+// -> MockExchange::run and come back indexed on the merged account channel
+// ------------------------------------------------------------------------------------------------
+
+#[derive(Clone)]
+struct SharedClock(Arc<Mutex<DateTime<Utc>>>);
+impl EngineClock for SharedClock {
+    fn time(&self) -> DateTime<Utc> {
+        *self.0.lock().unwrap()
+    }
+}
+
+fn internal_name(name: &str) -> String {
+    format!("{}_{}", EXCHANGE.as_str(), name.to_lowercase())
+}
+
+/// market orders on all three instruments, both sides, + one limit order (an unlisted instrument has no index)
+fn builder_syms() -> Vec<Sym> {
+    env_ops().into_iter().filter_map(|op| match op {
+        Op::Open(s) if (s.inst as usize) < INSTRUMENTS.len() => Some(s),
+        _ => None,
+    }).collect()
+}
+
+fn builder_execute(cfg: &Config, max_ops: usize, ch: &mut Chooser) -> EnvExec {
+    let menu = builder_syms();
+    let rt = paused_rt();
+    // Kraken is tracked but has no execution link and comes FIRST; it names the same assets, so the simulated
+    // exchange's assets and instruments do not start at index 0
+    let mut builder = IndexedInstruments::builder()
+        .add_instrument(Instrument::spot(ExchangeId::Kraken, "kraken_eth_usdt", "ETH/USDT", Underlying::new("eth", "usdt"), None))
+        .add_instrument(Instrument::spot(ExchangeId::Kraken, "kraken_btc_usdt", "XBT/USDT", Underlying::new("btc", "usdt"), None));
+    for (name, base, quote) in INSTRUMENTS {
+        builder = builder.add_instrument(Instrument::spot(EXCHANGE, internal_name(name), name, Underlying::new(base, quote), None));
+    }
+    let indexed = builder.build();
+    let ex_index = indexed.find_exchange_index(EXCHANGE).expect("exchange index");
+    let inst_index: Vec<InstrumentIndex> = INSTRUMENTS
+        .iter()
+        .map(|(name, ..)| indexed.find_instrument_index(EXCHANGE, &InstrumentNameInternal::new(internal_name(name))).expect("instrument index"))
+        .collect();
+    let clock = SharedClock(Arc::new(Mutex::new(t0())));
+    let mut ops: Vec<(Op, u64)> = Vec::new();
+    let mut collected: Vec<AccountStreamEvent> = Vec::new();
+    let mut viols: Vec<Viol> = Vec::new();
+    let mut mock_died = false;
+
+    rt.block_on(async {
+        let start = tokio::time::Instant::now();
+        let build = match ExecutionBuilder::new(&indexed).add_mock(cfg.mock_config(LATENCY_MS), clock.clone()) {
+            Ok(b) => b.build(),
+            Err(e) => {
+                viols.push(("C08/builder/add-mock-failed".into(), format!("{e:?}")));
+                return;
+            }
+        };
+        let mut exec = match build.init().await {
+            Ok(x) => x,
+            Err(e) => {
+                viols.push(("C08/builder/init-failed".into(), format!("{e:?}")));
+                return;
+            }
+        };
+        macro_rules! settle {
+            () => {{
+                for _ in 0..16 {
+                    tokio::task::yield_now().await;
+                    while let Ok(ev) = exec.account_channel.rx.rx.try_recv() {
+                        collected.push(ev);
+                    }
+                }
+            }};
+        }
+        settle!();
+        while ops.len() < max_ops {
+            let c = ch.choose(menu.len() + 1);
+            if c == 0 {
+                break;
+            }
+            let s = menu[c - 1];
+            let k = ops.len();
+            let now_ms = start.elapsed().as_millis() as u64;
+            ops.push((Op::Open(s), now_ms));
+            *clock.0.lock().unwrap() = t0() + TimeDelta::milliseconds(now_ms as i64);
+            let r = request_u(&s, k, true);
+            let indexed_request = OrderEvent {
+                key: OrderKey { exchange: ex_index, instrument: inst_index[s.inst as usize], strategy: r.key.strategy, cid: r.key.cid },
+                state: r.state,
+            };
+            match exec.execution_txs.find(&ex_index) {
+                Ok(tx) => {
+                    let _ = tx.send(ExecutionRequest::Open(indexed_request));
+                }
+                Err(e) => viols.push(("C08/builder/no-link-for-the-mocked-exchange".into(), format!("{e:?}"))),
+            }
+            settle!();
+            // environment: next order at the same instant, or after the latency has passed
+            if ch.choose(2) == 1 {
+                tokio::time::advance(Duration::from_millis(LATENCY_MS)).await;
+                settle!();
+            }
+        }
+        // horizon: everything in flight lands (well inside the manager's request timeout)
+        for _ in 0..3 {
+            tokio::time::advance(Duration::from_millis(LATENCY_MS)).await;
+            settle!();
+        }
+        mock_died = exec.handles.mock_exchanges.iter().any(|h| h.is_finished());
+    });
+
+    // ---- translate the indexed events back to exchange names (tables of IndexedInstruments itself)
+    let seq_txt = format!("config={} ops={ops:?}", cfg.label());
+    let mut events: Vec<UnindexedAccountEvent> = Vec::new();
+    let mut order_events: Vec<&Order<ExchangeIndex, InstrumentIndex, OrderState<AssetIndex, InstrumentIndex>>> = Vec::new();
+    let mut snapshots = 0usize;
+    let asset_name = |i: AssetIndex| indexed.find_asset(i).ok().filter(|a| a.exchange == EXCHANGE).map(|a| a.asset.name_exchange.clone());
+    let inst_name = |i: InstrumentIndex| indexed.find_instrument(i).ok().filter(|x| x.exchange.value == EXCHANGE).map(|x| x.name_exchange.clone());
+    for ev in &collected {
+        let AccountStreamEvent::Item(AccountEvent { exchange, kind }) = ev else {
+            viols.push(("C08/builder/account-stream-reconnecting".into(), format!("{ev:?}; {seq_txt}")));
+            continue;
+        };
+        if *exchange != ex_index {
+            viols.push(("C08/builder/event-for-another-exchange".into(), format!("account event carries {exchange:?}, the simulated exchange has {ex_index:?}: {kind:?}; {seq_txt}")));
+        }
+        match kind {
+            AccountEventKind::Snapshot(snap) => {
+                // R-queries: the first thing every manager reports is the account snapshot = the configured balances
+                snapshots += 1;
+                let got: Option<Ledger> = snap.balances.iter().map(|b| asset_name(b.asset).map(|n| (n.name().to_string(), (b.balance.total, b.balance.free)))).collect();
+                let want: Ledger = ASSETS.iter().zip(cfg.balances.iter()).map(|(a, b)| (a.to_string(), (b.parse().unwrap(), b.parse().unwrap()))).collect();
+                if got.as_ref() != Some(&want) || snap.balances.len() != want.len() || snapshots > 1 {
+                    viols.push(("C08/builder/initial-snapshot/differs-from-configured-balances".into(), format!("snapshot #{snapshots} balances={:?} (by name: {got:?}), configured {want:?}; {seq_txt}", snap.balances)));
+                }
+            }
+            AccountEventKind::BalanceSnapshot(Snapshot(b)) => match asset_name(b.asset) {
+                Some(asset) => events.push(UnindexedAccountEvent {
+                    exchange: EXCHANGE,
+                    kind: AccountEventKind::BalanceSnapshot(Snapshot(AssetBalance { asset, balance: b.balance, time_exchange: b.time_exchange })),
+                }),
+                None => viols.push(("C08/builder/balance-of-an-asset-of-another-exchange".into(), format!("{b:?}; {seq_txt}"))),
+            },
+            AccountEventKind::Trade(t) => match inst_name(t.instrument) {
+                Some(instrument) => events.push(UnindexedAccountEvent {
+                    exchange: EXCHANGE,
+                    kind: AccountEventKind::Trade(Trade {
+                        id: t.id.clone(),
+                        order_id: t.order_id.clone(),
+                        instrument,
+                        strategy: t.strategy.clone(),
+                        time_exchange: t.time_exchange,
+                        side: t.side,
+                        price: t.price,
+                        quantity: t.quantity,
+                        fees: t.fees.clone(),
+                    }),
+                }),
+                None => viols.push(("C08/builder/trade-on-an-instrument-of-another-exchange".into(), format!("{t:?}; {seq_txt}"))),
+            },
+            AccountEventKind::OrderSnapshot(Snapshot(o)) => order_events.push(o),
+            other => viols.push(("C08/builder/unexpected-account-event".into(), format!("{other:?}; {seq_txt}"))),
+        }
+    }
+    if snapshots == 0 && !viols.iter().any(|v| v.0.starts_with("C08/builder/add-mock") || v.0.starts_with("C08/builder/init")) {
+        viols.push(("C08/builder/initial-snapshot/missing".into(), seq_txt.clone()));
+    }
+    // ---- the answer to order k = the order snapshot with its client order id
+    let mut answers: Vec<Option<Resp>> = Vec::new();
+    for (k, (op, _)) in ops.iter().enumerate() {
+        let Op::Open(s) = op else { unreachable!() };
+        let req = request_u(s, k, true);
+        let mine: Vec<_> = order_events.iter().filter(|o| o.key.cid == req.key.cid).collect();
+        if mine.len() > 1 {
+            viols.push(("C08/builder/order-answered-more-than-once".into(), format!("order #{k}: {mine:?}; {seq_txt}")));
+        }
+        let Some(o) = mine.first() else {
+            answers.push(None);
+            continue;
+        };
+        // a fully filled order is reported without its exchange order id: the fill that echoes the order's
+        // (per order unique) strategy supplies it
+        let fill = events.iter().find_map(|e| match &e.kind {
+            AccountEventKind::Trade(t) if t.strategy == req.key.strategy => Some(t),
+            _ => None,
+        });
+        let state = match &o.state {
+            OrderState::Active(ActiveOrderState::Open(open)) => Ok(open.clone()),
+            OrderState::Inactive(InactiveOrderState::FullyFilled) => Ok(Open {
+                id: fill.map(|t| t.order_id.clone()).unwrap_or_else(|| OrderId::new(format!("order-{k}-without-fill"))),
+                time_exchange: fill.map(|t| t.time_exchange).unwrap_or_else(t0),
+                filled_quantity: o.quantity,
+            }),
+            OrderState::Inactive(InactiveOrderState::OpenFailed(OrderError::Rejected(e))) => Err(UnindexedOrderError::Rejected(ApiError::OrderRejected(format!("{e:?}")))),
+            other => {
+                answers.push(Some(Resp::Failed(format!("order #{k} came back as {other:?}"))));
+                continue;
+            }
+        };
+        let key_ok = o.key.exchange == ex_index && o.key.instrument == inst_index[s.inst as usize];
+        answers.push(Some(Resp::Open(Order {
+            // (a wrong exchange / instrument index shows as a key that does not echo the order)
+            key: OrderKey {
+                exchange: EXCHANGE,
+                instrument: if key_ok { req.key.instrument.clone() } else { InstrumentNameExchange::new(format!("{:?}/{:?}", o.key.exchange, o.key.instrument)) },
+                strategy: o.key.strategy.clone(),
+                cid: o.key.cid.clone(),
+            },
+            side: o.side,
+            price: o.price,
+            quantity: o.quantity,
+            kind: o.kind,
+            time_in_force: o.time_in_force,
+            state,
+        })));
+    }
+    for o in &order_events {
+        if !(0..ops.len()).any(|k| o.key.cid.0.as_str() == format!("cid-{k}")) {
+            viols.push(("C08/builder/answer-to-an-order-never-sent".into(), format!("{o:?}; {seq_txt}")));
+        }
+    }
+    env_judge(cfg, "ExecutionBuilder::add_mock -> ExecutionManager -> MockExecution -> MockExchange::run", true, ops, answers, events, mock_died, viols)
+}
+
+// ------------------------------------------------------------------------------------------------
 // run / replay
 // ------------------------------------------------------------------------------------------------
 
@@ -909,20 +1251,28 @@ pub fn run(ctx: &Ctx) -> Outcome {
     let depth_of = |c: &Config| if quick || c.balances.iter().any(|b| b == "3") { 3usize } else { 4 };
     let depth = if quick { 3 } else { 4 };
     let cfgs = configs(&menu, &["0", "0.1"]);
-    let alpha = alphabet(&[1, 2, 3]);
+    // the market orders with another time in force are explored to depth 3; deeper runs use the base alphabet
+    let alpha = alphabet(&[1, 2, 3], true);
+    let alpha_base = alphabet(&[1, 2, 3], false);
     let distinct = Distinct::default();
     // configurations in parallel (each seq::run is itself parallel over its prefixes)
     let per_cfg: Vec<(u64, u64, usize, u64, u64)> = cfgs
         .par_iter()
         .map(|cfg| {
-            let m = M::new(Some(ctx), cfg.clone(), alpha.clone());
-            let st = seq::run(ctx, &m, &cfg.label(), depth_of(cfg));
-            for (sig, (_, suppressed)) in m.seen.lock().unwrap().iter() {
-                for _ in 0..*suppressed {
-                    ctx.violations.bump(sig);
+            let mut sum = (0u64, 0u64, 0usize, 0u64, 0u64);
+            let d = depth_of(cfg);
+            let passes: Vec<(&Vec<Sym>, usize)> = if d > 3 { vec![(&alpha_base, d), (&alpha, 3)] } else { vec![(&alpha, d)] };
+            for (a, d) in passes {
+                let m = M::new(Some(ctx), cfg.clone(), a.clone());
+                let st = seq::run(ctx, &m, &cfg.label(), d);
+                for (sig, (_, suppressed)) in m.seen.lock().unwrap().iter() {
+                    for _ in 0..*suppressed {
+                        ctx.violations.bump(sig);
+                    }
                 }
+                sum = (sum.0 + st.sequences, sum.1 + st.steps, sum.2 + st.distinct_final, sum.3 + m.accepted.load(Ordering::Relaxed), sum.4 + m.rejected.load(Ordering::Relaxed));
             }
-            (st.sequences, st.steps, st.distinct_final, m.accepted.load(Ordering::Relaxed), m.rejected.load(Ordering::Relaxed))
+            sum
         })
         .collect();
     let sequences: u64 = per_cfg.iter().map(|x| x.0).sum();
@@ -931,6 +1281,30 @@ pub fn run(ctx: &Ctx) -> Outcome {
     let accepted: u64 = per_cfg.iter().map(|x| x.3).sum();
     let rejected: u64 = per_cfg.iter().map(|x| x.4).sum();
     eprintln!("C08 layer 1: configs={} alphabet={} depth={depth} sequences={sequences} steps={steps} accepted={accepted} rejected={rejected} elapsed={:.1}s", cfgs.len(), alpha.len(), ctx.start.elapsed().as_secs_f64());
+
+    // ---- layer 1b: many-decimal prices, quantities and fee (0.075 %): "exactly that amount" to the last digit.
+    // 0.00012336905745 = 10 x 0.00001234 x 3 x 0.333 x 1.00075: exactly enough for the largest buy
+    let fine_cfgs = configs(&["0.00012336905745", "33"], &["0.00075"]);
+    let fine_alpha = fine_alphabet();
+    let fine_depth = if quick { 2 } else { 3 };
+    let per_fine: Vec<(u64, u64, usize, u64, u64)> = fine_cfgs
+        .par_iter()
+        .map(|cfg| {
+            let m = M::new(Some(ctx), cfg.clone(), fine_alpha.clone());
+            let st = seq::run(ctx, &m, &cfg.label(), fine_depth);
+            for (sig, (_, suppressed)) in m.seen.lock().unwrap().iter() {
+                for _ in 0..*suppressed {
+                    ctx.violations.bump(sig);
+                }
+            }
+            (st.sequences, st.steps, st.distinct_final, m.accepted.load(Ordering::Relaxed), m.rejected.load(Ordering::Relaxed))
+        })
+        .collect();
+    let fine_sequences: u64 = per_fine.iter().map(|x| x.0).sum();
+    let fine_distinct: usize = per_fine.iter().map(|x| x.2).sum();
+    let fine_accepted: u64 = per_fine.iter().map(|x| x.3).sum();
+    let fine_rejected: u64 = per_fine.iter().map(|x| x.4).sum();
+    eprintln!("C08 layer 1b: configs={} alphabet={} depth={fine_depth} sequences={fine_sequences} accepted={fine_accepted} rejected={fine_rejected} elapsed={:.1}s", fine_cfgs.len(), fine_alpha.len(), ctx.start.elapsed().as_secs_f64());
 
     // ---- layer 2
     let env_cfgs = vec![
@@ -973,31 +1347,88 @@ pub fn run(ctx: &Ctx) -> Outcome {
     let env_execs = env_exec.load(Ordering::Relaxed);
     eprintln!("C08 layer 2: configs={} depth={env_depth} executions={env_execs} elapsed={:.1}s", env_cfgs.len(), ctx.start.elapsed().as_secs_f64());
 
+    // ---- layer 2b: one long scripted run (history length)
+    let long_opens: usize = if quick { 150 } else { 600 };
+    let script = long_script(long_opens);
+    let long_cfg = long_config();
+    let long_ops = script.len() / 2;
+    let long_ex = env_execute(&long_cfg, long_ops, &mut Chooser::new(script.clone()));
+    distinct.add_hash(long_ex.outcome_hash);
+    let (long_responses, long_notes) = (long_ex.responses, long_ex.notifications);
+    for (sig, detail) in long_ex.viols {
+        ctx.violate(sig, detail, json!({"engine": "env", "config": long_cfg, "depth": long_ops, "choices": script, "ops_for_the_reader": format!("scripted run: {long_opens} accepted market orders, trade query after every 16th, three queries at the end")}));
+    }
+    eprintln!("C08 layer 2b: ops={long_ops} responses={long_responses} notifications={long_notes} elapsed={:.1}s", ctx.start.elapsed().as_secs_f64());
+
+    // ---- layer 3: the builder path
+    let b_cfgs = vec![
+        Config { balances: ["3.3".into(), "3.3".into(), "33".into()], fee: "0.1".into() },
+        Config { balances: ["5".into(), "0".into(), "25".into()], fee: "0".into() },
+    ];
+    let b_depth = if quick { 3 } else { 4 };
+    let b_exec = AtomicU64::new(0);
+    let b_resp = AtomicU64::new(0);
+    let b_notes = AtomicU64::new(0);
+    let b_distinct = Distinct::default();
+    let mut b_points = 0u64;
+    for cfg in &b_cfgs {
+        let stats = choice::explore(None, |ch| {
+            let ex = builder_execute(cfg, b_depth, ch);
+            b_exec.fetch_add(1, Ordering::Relaxed);
+            b_resp.fetch_add(ex.responses, Ordering::Relaxed);
+            b_notes.fetch_add(ex.notifications, Ordering::Relaxed);
+            b_distinct.add_hash(ex.outcome_hash);
+            let choices = ch.choices();
+            for (sig, detail) in ex.viols {
+                ctx.violate(sig, detail, json!({"engine": "builder", "config": cfg, "depth": b_depth, "choices": choices, "ops_for_the_reader": format!("{:?}", ex.ops)}));
+            }
+        });
+        b_points += stats.choice_points;
+    }
+    let b_execs = b_exec.load(Ordering::Relaxed);
+    eprintln!("C08 layer 3: configs={} depth={b_depth} executions={b_execs} elapsed={:.1}s", b_cfgs.len(), ctx.start.elapsed().as_secs_f64());
+
     Outcome {
         level: "exploration",
         coverage: json!({
-            "evaluations": sequences + env_execs,
-            "distinct_nontrivial": distinct_total + distinct.len(),
+            "evaluations": sequences + fine_sequences + env_execs + 1 + b_execs,
+            "distinct_nontrivial": distinct_total + fine_distinct + distinct.len() + b_distinct.len(),
             "exhaustive": true,
             "layer1_seq": {
-                "configurations": cfgs.len(), "balance_menu": menu, "fees": ["0", "0.1"], "alphabet_size": alpha.len(), "max_len": depth, "max_len_for_configurations_with_balance_3": 3,
+                "configurations": cfgs.len(), "balance_menu": menu, "fees": ["0", "0.1"], "alphabet_size": alpha.len(), "alphabet_size_beyond_len_3": alpha_base.len(), "max_len": depth, "max_len_for_configurations_with_balance_3": 3,
                 "sequences": sequences, "open_order_calls": steps, "accepted": accepted, "rejected": rejected, "distinct_final_ledgers": distinct_total,
+            },
+            "layer1b_many_decimals": {
+                "configurations": fine_cfgs.len(), "balance_menu": ["0.00012336905745", "33"], "fee": "0.00075", "price_unit": "0.00001234", "quantity_unit": "0.333",
+                "alphabet_size": fine_alpha.len(), "max_len": fine_depth, "sequences": fine_sequences, "accepted": fine_accepted, "rejected": fine_rejected, "distinct_final_ledgers": fine_distinct,
             },
             "layer2_env": {
                 "configurations": env_cfgs, "ops_menu": env_ops().len(), "max_ops": env_depth, "executions": env_execs, "choice_points": env_points,
                 "oneshot_responses": env_resp.load(Ordering::Relaxed), "broadcast_notifications": env_notes.load(Ordering::Relaxed),
                 "distinct_outcomes": distinct.len(),
             },
-            "rule": "ledger model from the statement (buy spends quote p*q*(1+fee), sell spends base q*(1+fee); accept iff enough; exact debit; rejection without effect; fresh ids; fee percentage; one balance + one trade announcement; queries reflect accepted orders) checked after every step of every request sequence <= max_len for every balance/fee configuration on the real MockExchange::open_order/account_snapshot, and on every op sequence x pacing through MockExecution -> MockExchange::run",
+            "layer2b_long_run": {
+                "configuration": long_cfg, "accepted_market_orders": long_opens, "ops": long_ops, "oneshot_responses": long_responses, "broadcast_notifications": long_notes,
+                "what": "one scripted run: trade query for the whole history after every 16th order and at the end, balances + snapshot at the end; ids fresh over the whole run",
+            },
+            "layer3_builder_path": {
+                "configurations": b_cfgs, "order_menu": builder_syms().len(), "max_orders": b_depth, "executions": b_execs, "choice_points": b_points,
+                "order_answers": b_resp.load(Ordering::Relaxed), "notifications": b_notes.load(Ordering::Relaxed), "distinct_outcomes": b_distinct.len(),
+                "what": "IndexedInstruments [Kraken (tracked, no link) x2, BinanceSpot x3] -> ExecutionBuilder::add_mock -> build -> init; orders sent through the MultiExchangeTxMap, answers and announcements read (indexed) from the merged account channel and judged by the same ledger oracle",
+            },
+            "rule": "ledger model from the statement (buy spends quote p*q*(1+fee), sell spends base q*(1+fee); accept iff enough; exact debit; rejection without effect; fresh ids; fee percentage; one balance + one trade announcement; queries reflect accepted orders) checked after every step of every request sequence <= max_len for every balance/fee configuration on the real MockExchange::open_order/account_snapshot, on every op sequence x pacing through MockExecution -> MockExchange::run (+ one long scripted run), and on every order sequence x pacing through the builder path (ExecutionBuilder::add_mock -> ExecutionManager -> MockExecution -> MockExchange configured by the builder)",
             "samples": samples.lock().unwrap().values().cloned().collect::<Vec<_>>(),
         }),
         assumptions: vec![
+            "amounts stay far inside Decimal's 28 significant digits (no rounding inside the arithmetic)".into(),
             "prices and quantities are positive; initial total == free (market orders only, as the code asserts)".into(),
             "every asset of every listed instrument has an initial balance entry (the code panics otherwise by design)".into(),
             "client order ids are unique".into(),
             "limit orders and orders for unlisted instruments are expected to be rejected without effect (the exchange only fills market orders on listed instruments)".into(),
             "the relative order of the balance and the trade announcement is not prescribed; a trade exactly at `since` may or may not be listed".into(),
             "layer 2: requests are processed in the order they were sent (single client)".into(),
+            "a market order is a market order whatever its time in force (IOC, FOK, GTC, GTD are all in the alphabet); the answer to an order repeats the order's key and terms".into(),
+            "layer 3: every order of a sequence has its own strategy id (a fully filled order comes back without its exchange order id; its fill is found through the strategy it echoes)".into(),
         ],
     }
 }
@@ -1007,7 +1438,7 @@ pub fn replay(ctx: &Ctx, case: &Value) {
     match case["engine"].as_str() {
         Some("seq") => {
             let cfg: Config = serde_json::from_str(case["label"].as_str().expect("replay: label")).expect("replay: config");
-            let m = M::new(None, cfg, alphabet(&[1, 2, 3]));
+            let m = M::new(None, cfg, alphabet(&[1, 2, 3], true));
             for (sig, detail) in seq::replay(&m, case) {
                 ctx.violate(sig, detail, case.clone());
             }
@@ -1019,6 +1450,16 @@ pub fn replay(ctx: &Ctx, case: &Value) {
             let mut ch = Chooser::new(choices);
             let ex = env_execute(&cfg, depth, &mut ch);
             println!("replay: ops (op, sent at ms) = {:?}; responses={} notifications={}", ex.ops, ex.responses, ex.notifications);
+            for (sig, detail) in ex.viols {
+                ctx.violate(sig, detail, case.clone());
+            }
+        }
+        Some("builder") => {
+            let cfg: Config = serde_json::from_value(case["config"].clone()).expect("replay: config");
+            let depth = case["depth"].as_u64().expect("replay: depth") as usize;
+            let choices: Vec<usize> = serde_json::from_value(case["choices"].clone()).expect("replay: choices");
+            let ex = builder_execute(&cfg, depth, &mut Chooser::new(choices));
+            println!("replay: orders (op, sent at ms) = {:?}; answers={} notifications={}", ex.ops, ex.responses, ex.notifications);
             for (sig, detail) in ex.viols {
                 ctx.violate(sig, detail, case.clone());
             }
